@@ -133,6 +133,7 @@ func cmdCheck(args []string) int {
 	verif := fs.String("verif", "/verif", "verif root")
 	verbose := fs.Bool("v", false, "verbose")
 	only := fs.String("only", "", "restrict to functions whose key contains this string (debugging; evidence not written)")
+	dumpObl := fs.String("dumpobl", "", "write the SMT query of the obligations whose name contains this string to /tmp/govc_query.smt2")
 	noev := fs.Bool("noevidence", false, "do not rewrite the evidence file (used when checking a scratch copy)")
 	fs.Parse(args)
 	if *prop == "" {
@@ -148,7 +149,7 @@ func cmdCheck(args []string) int {
 		fmt.Fprintln(os.Stderr, "govc:", err)
 		return 2
 	}
-	cfg := RunConfig{Prop: *prop, Tier: *tier, TimeoutS: 20, Workers: 6, Verbose: *verbose}
+	cfg := RunConfig{Prop: *prop, Tier: *tier, TimeoutS: 20, Workers: 6, Verbose: *verbose, DumpObl: *dumpObl}
 	if *tier == "thorough" {
 		cfg.TimeoutS = 60
 		cfg.All = true
